@@ -204,7 +204,7 @@ theorem sp_addImplicitData (d : ImpData) (k : Nat) (s : PState) (hi : Inv T E k 
   exact ⟨k, Nat.le_refl _,
     inv_foldl_addMovementStep T E _ k _ (inv_foldl_addTextStep T E _ k s hi hd.1) hd.2, True.intro⟩
 
-set_option maxHeartbeats 1000000 in
+
 theorem sp_parseTopLevelStatement (env : Env) (n : Nat) (k : Nat) (s : PState) (hi : Inv T E k s) :
     tri (El T E) (parseTopLevelStatement env n) s (Post T E k (OptTopOK T E)) := by
   unfold parseTopLevelStatement
@@ -233,5 +233,104 @@ theorem sp_topLoop (env : Env) (fuel : Nat) : ∀ (n : Nat) (acc : List Top) (k 
     tstart hi
     tgo [ih, sp_parseTopLevelStatement T E, alltop_snoc T E]
 
+/-! ### the duplicate label checks of `ParseProgram` -/
+
+theorem firstDuplicateText_mem : ∀ (l : List Text) (seen : List String) (t : Text),
+    firstDuplicateText l seen = some t → t ∈ l := by
+  intro l
+  induction l with
+  | nil => intro seen t h; simp [firstDuplicateText] at h
+  | cons x r ih =>
+    intro seen t h
+    rw [firstDuplicateText] at h
+    split at h
+    · cases h; exact List.mem_cons_self
+    · exact List.mem_cons_of_mem _ (ih _ _ h)
+
+theorem dupText_tin {s : PState} {t : Text} (hst : StOk T E s)
+    (h : firstDuplicateText (s.inlineTexts ++ s.textStatements) [] = some t) : Tin T E t.tok := by
+  rcases List.mem_append.1 (firstDuplicateText_mem _ _ _ h) with h1 | h1
+  · exact hst.1 t h1
+  · exact hst.2.1 t h1
+
+theorem firstDuplicateMovement_tin : ∀ (l : List Top) (seen : List (String × Tok)) (tok : Tok) (name : String),
+    AllTop T E l → (∀ p ∈ seen, Tin T E p.2) → firstDuplicateMovement l seen = some (tok, name) →
+    Tin T E tok := by
+  intro l
+  induction l with
+  | nil => intro seen tok name _ _ h; simp [firstDuplicateMovement] at h
+  | cons x r ih =>
+    intro seen tok name hl hseen h
+    have hr : AllTop T E r := fun t ht => hl t (List.mem_cons_of_mem _ ht)
+    cases x with
+    | movement m =>
+      rw [firstDuplicateMovement] at h
+      split at h
+      · rename_i t0 hlk
+        cases h
+        exact hseen _ (lookup_mem hlk)
+      · refine ih _ _ _ hr ?_ h
+        intro p hp
+        rcases List.mem_cons.1 hp with h1 | h1
+        · subst h1; exact hl (.movement m) List.mem_cons_self
+        · exact hseen p h1
+    | script _ => simp only [firstDuplicateMovement] at h; exact ih _ _ _ hr hseen h
+    | raw _ _ _ => simp only [firstDuplicateMovement] at h; exact ih _ _ _ hr hseen h
+    | text _ => simp only [firstDuplicateMovement] at h; exact ih _ _ _ hr hseen h
+    | mart _ _ _ _ _ => simp only [firstDuplicateMovement] at h; exact ih _ _ _ hr hseen h
+    | mapscripts _ => simp only [firstDuplicateMovement] at h; exact ih _ _ _ hr hseen h
+
+theorem dupMov_tin {s : PState} {tops : List Top} {tok : Tok} {name : String} (ht : AllTop T E tops)
+    (hst : StOk T E s)
+    (h : firstDuplicateMovement (tops ++ s.inlineMovements.map Top.movement) [] = some (tok, name)) :
+    Tin T E tok := by
+  refine firstDuplicateMovement_tin T E _ [] tok name ?_ (fun _ hp => absurd hp List.not_mem_nil) h
+  intro t ht'
+  rcases List.mem_append.1 ht' with h1 | h1
+  · exact ht t h1
+  · obtain ⟨m, hm, rfl⟩ := List.mem_map.1 h1
+    exact hst.2.2 m hm
+
+
+theorem sp_parseProgramM (env : Env) (fuel : Nat) (k : Nat) (s : PState) (hi : Inv T E k s) :
+    tri (El T E) (parseProgramM env fuel) s (fun _ _ => True) := by
+  unfold parseProgramM
+  tstart hi
+  apply tri_call
+  · exact sp_topLoop T E env fuel fuel [] k s hi (fun t ht => absurd ht List.not_mem_nil)
+  · intro a s' hp
+    obtain ⟨k', hk, hinv, hr⟩ := hp
+    split
+    · rename_i t ht
+      tsimp
+      exact el_tin_of T E (dupText_tin T E hinv.st ht) _
+    · split
+      · rename_i tok name hm
+        tsimp
+        exact el_tin_of T E (dupMov_tin T E hr hinv.st hm) _
+      · tsimp
+
 end
+
+/-- **Every error value returned by `parseTokens` is located**: its start fields are those of input token
+`i`, its end fields those of input token `j`, for some `i ≤ j` (indices `≥ toks.length` stand for the
+end-of-input token `toks.getLastD {type := .EOF}`). -/
+theorem parseTokens_locAt (env : Env) (toks : List Tok) (e : PErr)
+    (h : parseTokens env toks = .error (.err e)) :
+    ∃ i j, i ≤ j ∧ LocAt toks (toks.getLastD { type := .EOF }) i j e := by
+  unfold parseTokens at h
+  simp only [StateT.run'] at h
+  generalize hr : (parseProgramM env (4 * toks.length + 50))
+    { toks := toks, eof := toks.getLastD { type := .EOF } } = res at h
+  cases res with
+  | ok r => simp [Functor.map, Except.map] at h
+  | error f =>
+    simp only [Functor.map, Except.map, Except.error.injEq] at h
+    subst h
+    have hinv : Inv toks (toks.getLastD { type := .EOF }) 0
+        ({ toks := toks, eof := toks.getLastD { type := .EOF } } : PState) :=
+      ⟨rfl, rfl, fun _ hx => absurd hx List.not_mem_nil, fun _ hx => absurd hx List.not_mem_nil,
+        fun _ hx => absurd hx List.not_mem_nil⟩
+    exact tri_error _ (sp_parseProgramM toks _ env _ 0 _ hinv) hr e rfl
+
 end Pory.Parser
